@@ -288,12 +288,14 @@ def slice_encodings(slices):
 
 
 def axis_options(n, rich):
-    """conforming region only: non-negative in-range start < stop, positive step, omitted parts, in-range integers"""
+    """in-range start/stop (also counted from the end), positive and negative steps, omitted parts, in-range integers; never an empty axis"""
     o = [[None, None], [0, n, 1], 0]
     if n >= 2:
         o += [[1, n, 1], n - 1, [0, n - 1]]
         if rich:
             o += [[0, n, 2], [None, n - 1], [1, None], [None, None, 2], [0, n - 1, 1], [1, n]]
+            # negative steps / from-the-end values (Python semantics since the slicing repair 31c6230)
+            o += [[None, None, -1], [None, None, -2], -1, [-2, None], [None, -1], [n - 1, 0, -1], [-1, -n - 1, -1]]
     return o
 
 
@@ -475,8 +477,8 @@ class C20(Prop):
                         a = draw(st.integers(0, e - 1))
                         b = draw(st.integers(a + 1, e))
                         c = draw(st.integers(1, 3))
-                        sl.append([[a, b, c], [a, b, c], [a, b], [None, b], [a, None], [None, None], [None, None, c]][draw(st.integers(0, 6))] if d < 3 else
-                                  [[a, b, c], [a, b], [None, None]][draw(st.integers(0, 2))])
+                        sl.append([[a, b, c], [a, b, c], [a, b], [None, b], [a, None], [None, None], [None, None, c], [None, None, -c], [b - 1, a - e - 1, -c], [a - e, None], [None, b - e] if b < e else [a, None]][draw(st.integers(0, 10))] if d < 3 else
+                                  [[a, b, c], [a, b], [None, None], [None, None, -c], [b - 1, a - e - 1, -c]][draw(st.integers(0, 4))])
                 encs = slice_encodings(sl)
                 if not encs:
                     sl = [[0, e, 1] for e in shape]
